@@ -312,4 +312,11 @@ def orcC01 (args : List String) : String :=
     | _, _, _ => "BADARG"
   | _ => "BADARG"
 
+/-- C20: two layouts (or two compilations) of one program must have the same outcome: both rejected, or
+byte-identical images and identical name-to-register listings -/
+def orcC20 (args : List String) : String :=
+  match splitAt "@@" args with
+  | [a, b] => passFail (a == b && a != ["PANIC"] && a != ["ABORT"])
+  | _ => "BADARG"
+
 end Portus.Driver
